@@ -132,13 +132,23 @@ StepOK ==
   /\ fs' = IF Steps[pc].res = "ok" THEN Apply(fs, Steps[pc], Steps[pc].n) ELSE fs
   /\ pc' = pc + 1 /\ UNCHANGED <<inp, exit, sched>>
 
-\* the call fails without effect (EACCES, ENOSPC, EIO ... injected at its entry)
+\* the call fails without effect (injected at its entry).  Three fault modes:
+\*   "err"   one call fails with a hard errno (EACCES, ENOSPC, EIO ...)
+\*   "tmp"   one call fails with a transient errno (EINTR, EAGAIN, ESTALE): besides reporting it the command (or the Go
+\*           runtime under it, which repeats calls interrupted by EINTR) may issue the call again and carry on
+\*   "perr"  PERSISTENT: this call and every later call of the same kind fail (a rename that never works, a full disk).
+\*           The mechanism layer says what the code does today - it reports the first failure and touches nothing else;
+\*           code that tries something else after the failure shows in the recorded trace and is judged on the bytes
+\*           it leaves.  Persistent faults are also environments ("perr:<op>", the protocol is re-extracted under them).
 StepErr ==
   /\ exit = "running" /\ pc <= Len(Steps) /\ Len(sched) < MaxFaults /\ Steps[pc].res = "ok"
-  /\ sched' = Append(sched, [at |-> pc, f |-> "err", k |-> 0])
-  /\ \/ /\ exit' = "fail" /\ fs' \in Cleanups(fs) /\ pc' = pc        \* reported, nothing else is touched
-     \/ /\ Steps[pc].op = "close"                                    \* a failing close may go unnoticed
-        /\ exit' = exit /\ fs' = fs /\ pc' = pc + 1
+  /\ \E f \in {"err", "tmp", "perr"} :
+       /\ sched' = Append(sched, [at |-> pc, f |-> f, k |-> 0])
+       /\ \/ /\ exit' = "fail" /\ fs' \in Cleanups(fs) /\ pc' = pc        \* reported, nothing else is touched
+          \/ /\ Steps[pc].op = "close" /\ f # "perr"                       \* a failing close may go unnoticed
+             /\ exit' = exit /\ fs' = fs /\ pc' = pc + 1
+          \/ /\ f = "tmp"                                                 \* the call is issued again
+             /\ exit' = exit /\ fs' = fs /\ pc' = pc
   /\ UNCHANGED inp
 
 \* the write transfers k < n bytes and the rest fails (file size limit, disk full)
